@@ -918,7 +918,17 @@ func runErrorReplyConstruction(c *Ctx) {
 			edge = &e
 		}
 	}
-	writes := CallsTo(fn, write)
+	// the write and the three setters are performed by the instruction itself or by a same-package helper that
+	// performs them on every path (Prog.performs): `c.setFailedReply(stat)`, `c.writeOutput...()`
+	isStatusParam := func(v ssa.Value) bool {
+		prm, isPrm := Resolve(v).(*ssa.Parameter)
+		if !isPrm {
+			prm, isPrm = v.(*ssa.Parameter)
+		}
+		return isPrm && strings.HasSuffix(prm.Type().String(), ".Status")
+	}
+	writeEf := effect{"session.write", func(i ssa.Instruction) bool { _, isCall := i.(*ssa.Call); return isCall && IsCallTo(i, write) }}
+	writes := p.performs(fn, writeEf, 0)
 	if edge == nil || len(writes) != 1 {
 		c.Undec("writeReply error-reply construction", p.Pos(fn.Pos()), "cannot find the stat.OK() test / the single write in writeReply")
 		return
@@ -926,7 +936,7 @@ func runErrorReplyConstruction(c *Ctx) {
 	need := map[string]func(ssa.Instruction) bool{
 		"SetStatus(stat)": func(i ssa.Instruction) bool {
 			call, ok := i.(*ssa.Call)
-			return ok && CalleeObj(call) == setStatus && isFieldLoad(call.Call.Value, hcN, outIdx) && (call.Call.Args[0] == ssa.Value(statParam) || Resolve(call.Call.Args[0]) == ssa.Value(statParam))
+			return ok && CalleeObj(call) == setStatus && isFieldLoad(call.Call.Value, hcN, outIdx) && isStatusParam(call.Call.Args[0])
 		},
 		"SetBody(nil)": func(i ssa.Instruction) bool {
 			call, ok := i.(*ssa.Call)
@@ -942,13 +952,28 @@ func runErrorReplyConstruction(c *Ctx) {
 		},
 	}
 	for _, name := range []string{"SetStatus(stat)", "SetBody(nil)", "SetBodyCodec(NilCodecID)"} {
-		pred := need[name]
+		perf := map[ssa.Instruction]bool{}
+		for _, in := range p.performs(fn, effect{name, need[name]}, 0) {
+			// a helper that sets the status must be handed writeReply's own status parameter
+			if call, isCall := in.(*ssa.Call); isCall && name == "SetStatus(stat)" && !need[name](in) {
+				has := false
+				for _, a := range call.Call.Args {
+					if a == ssa.Value(statParam) || Resolve(a) == ssa.Value(statParam) {
+						has = true
+					}
+				}
+				if !has {
+					continue
+				}
+			}
+			perf[in] = true
+		}
 		// every path from the non-OK edge to the write passes it
-		w := &Walk{P: p, Stop: func(i ssa.Instruction) bool { return pred(i) || i == writes[0].(ssa.Instruction) }}
+		w := &Walk{P: p, Stop: func(i ssa.Instruction) bool { return perf[i] || i == writes[0] }}
 		w.FromBlock(edge.False)
 		ok := len(w.Hits) > 0
 		for _, h := range w.Hits {
-			if h == writes[0].(ssa.Instruction) {
+			if h == writes[0] {
 				ok = false
 			}
 		}
